@@ -319,3 +319,433 @@ def run_async(flavour, rt_ticks, events, fail_kind=0):
         return first, obs, rig.detail
     finally:
         rig.close()
+
+
+# ======================================================================= threaded rigs
+
+class _Abort(BaseException):
+    """raised inside fakes at clean-up time to end the gateway's threads"""
+
+
+class FakeLink:
+    """common part of the fake serial port / socket"""
+
+    def __init__(self, rig):
+        self.rig = rig
+        self.is_open = True
+        self.fail_write = False
+        self.script = []           # serial: pending results of read(): bytes | Exception
+        self.inbuf = []            # tcp: readable data
+        self.eof = False
+        self.err_select = False
+        self.err_recv = None
+        self.timeout = None
+        self.write_timeout = None
+        self.cancelled = False
+
+    def _write(self, data, exc):
+        if self.fail_write:
+            self.fail_write = False
+            raise exc
+        self.rig.emit("W", data=bytes(data))
+        return len(data)
+
+    def close(self):
+        if self.is_open:
+            self.is_open = False
+            self.rig.emit("C")
+
+
+class FakeSerial(FakeLink):
+    in_waiting = 0
+
+    def read(self, size=1):
+        rig = self.rig
+        with rig.cv:
+            while True:
+                if rig.abort:
+                    raise _Abort()
+                if self.script:
+                    r = self.script.pop(0)
+                    if isinstance(r, Exception):
+                        raise r
+                    return r
+                if self.cancelled:
+                    self.cancelled = False
+                    return b""
+                rig.block("read", link=self)
+
+    def cancel_read(self):
+        with self.rig.cv:
+            self.cancelled = True
+            self.rig.release(lambda b: b.get("link") is self)
+
+    def write(self, data):
+        return self._write(data, self.rig.serial.SerialException("simulated write failure"))
+
+
+class FakeSocket(FakeLink):
+    def setblocking(self, flag):
+        pass
+
+    def fileno(self):
+        return -1
+
+    def recv(self, n):
+        if self.err_recv is not None:
+            exc, self.err_recv = self.err_recv, None
+            raise exc
+        if self.inbuf:
+            return self.inbuf.pop(0)[:n]
+        if self.eof:
+            return b""
+        raise BlockingIOError()
+
+    def sendall(self, data):
+        self._write(data, BrokenPipeError("simulated write failure"))
+
+
+class SyncRig:
+    WAIT = 20.0
+
+    def __init__(self, flavour, rt_ticks, fail_kind=0):
+        import serial
+        import select
+        import socket
+        assert flavour in ("sser", "stcp")
+        self.flavour, self.rt, self.fail_kind = flavour, rt_ticks, fail_kind
+        self.serial, self.socket = serial, socket
+        self.clock = Clock()
+        self.cv = threading.Condition()
+        self.blocked = {}          # thread -> dict(kind=..., ...)
+        self.abort = False
+        self.cur, self.detail, self.links, self.injected = [], [], [], {}
+        self.base_threads = set(threading.enumerate())
+        self.thread_errors = []
+        self._real_select = select.select
+        self._real_join = threading.Thread.join
+        self._real_hook = threading.excepthook
+        rig = self
+
+        def join(thread, timeout=None):
+            with rig.cv:
+                rig.cv.notify_all()
+            return rig._real_join(thread, timeout)
+
+        self.patches = [mock.patch("time.time", self.clock.time), mock.patch("time.sleep", self._sleep),
+                        mock.patch("select.select", self._select),
+                        mock.patch.object(threading.Thread, "join", join)]
+        rt_s = rt_ticks / float(TPS)
+        if flavour == "sser":
+            from mysensors.gateway_serial import SerialGateway
+            self.patches.append(mock.patch("serial.serial_for_url", self._serial_for_url))
+            self.gw = SerialGateway("/dev/fake", reconnect_timeout=rt_s, protocol_version="2.2")
+        else:
+            from mysensors.gateway_tcp import TCPGateway
+            self.patches.append(mock.patch("socket.create_connection", self._create_connection))
+            with self.patches[0]:
+                self.gw = TCPGateway("127.0.0.1", reconnect_timeout=rt_s, protocol_version="2.2")
+        self.tr = self.gw.tasks.transport
+        self.proto = self.tr.protocol
+        self.gw.on_conn_made = self._made
+        self.gw.on_conn_lost = self._lost
+
+    # --- recording (called from any thread)
+    def emit(self, tag, **info):
+        with self.cv:
+            self.cur.append(tag)
+            info["t"] = self.clock.rel()
+            info["thread"] = threading.current_thread().name
+            self.detail.append((tag, info))
+
+    def _made(self, gw):
+        self.emit("M", ok=gw is self.gw)
+
+    def _lost(self, gw, exc):
+        self.emit("L1" if exc else "L0", ok=gw is self.gw, exc=repr(exc),
+                  injected=exc is None or id(exc) in self.injected or "No response from" in str(exc))
+
+    # --- blocking protocol (cv held by the caller)
+    def block(self, kind, **info):
+        """register the current thread as blocked and wait until released"""
+        me = threading.current_thread()
+        info["kind"] = kind
+        self.blocked[me] = info
+        self.cv.notify_all()
+        while me in self.blocked and not self.abort:
+            if kind == "reader" and not getattr(me, "alive", True):
+                del self.blocked[me]          # ReaderThread.stop() cleared .alive and joins us
+                break
+            self.cv.wait(1.0)
+        self.blocked.pop(me, None)
+        if self.abort:
+            raise _Abort()
+
+    def release(self, pred):
+        """cv held: release the blocked threads whose record satisfies pred"""
+        n = 0
+        for t, b in list(self.blocked.items()):
+            if pred(b):
+                del self.blocked[t]
+                n += 1
+        self.cv.notify_all()
+        return n
+
+    def find(self, kind):
+        with self.cv:
+            return [b for b in self.blocked.values() if b["kind"] == kind]
+
+    # --- fakes
+    def _kind_of_sleep(self):
+        me = threading.current_thread()
+        tgt = getattr(me, "_target", None)
+        if tgt is not None and getattr(tgt, "__name__", "") == "_poll_queue":
+            return "poll"
+        if hasattr(me, "_check_connection"):
+            return "reader"
+        return "sleep"
+
+    def _sleep(self, d):
+        me = threading.current_thread()
+        if me in self.base_threads:
+            raise HarnessError("time.sleep called from the harness thread")
+        kind = self._kind_of_sleep()
+        with self.cv:
+            if self.abort:
+                raise _Abort()
+            if kind == "sleep":
+                dt = ticks_of(d)
+                self.cur.append("S%d" % dt)
+                self.detail.append(("S%d" % dt, {"t": self.clock.rel()}))
+                self.block("sleep", until=self.clock.t + dt)
+            else:
+                self.block(kind)
+
+    def _dial(self):
+        with self.cv:
+            if self.abort:
+                raise _Abort()
+            self.cur.append("A%d" % self.clock.rel())
+            self.detail.append(("A%d" % self.clock.rel(), {"t": self.clock.rel()}))
+            rec = {}
+            self.block("dial", rec=rec)
+            return rec.get("ok", False)
+
+    def _serial_for_url(self, url, *a, **kw):
+        if self._dial():
+            ln = FakeSerial(self)
+            self.links.append(ln)
+            return ln
+        raise self.serial.SerialException("simulated: could not open port")
+
+    def _create_connection(self, address, timeout=None, *a, **kw):
+        if self._dial():
+            ln = FakeSocket(self)
+            self.links.append(ln)
+            return ln
+        raise (self.socket.timeout("simulated") if self.fail_kind else ConnectionRefusedError("simulated"))
+
+    def _select(self, r, w, x, timeout=None):
+        if not (r and isinstance(r[0], FakeSocket)):
+            return self._real_select(r, w, x, timeout)
+        s = r[0]
+        if self.abort:
+            raise _Abort()
+        if s.err_select:
+            s.err_select = False
+            return ([], [s], [s])
+        return ([s] if (s.inbuf or s.eof or s.err_recv is not None) else [], [s], [])
+
+    # --- quiescence
+    def managed(self):
+        return [t for t in threading.enumerate() if t not in self.base_threads]
+
+    def wait_quiet(self):
+        end = _time.monotonic() + self.WAIT
+        with self.cv:
+            while True:
+                live = self.managed()
+                if all(t in self.blocked for t in live):
+                    return
+                if _time.monotonic() > end:
+                    raise HarnessError("threads did not become quiet: %s" % [t.name for t in live if t not in self.blocked])
+                self.cv.wait(0.0005)
+
+    def kick(self, kind):
+        with self.cv:
+            n = self.release(lambda b: b["kind"] == kind)
+        self.wait_quiet()
+        return n
+
+    def pump(self):
+        """let the real poll thread (SyncTasks._poll_queue) drain the job queue"""
+        for _ in range(50):
+            if not self.gw.tasks.queue or not self.find("poll"):
+                return
+            self.kick("poll")
+        raise HarnessError("job queue does not drain")
+
+    def _excepthook(self, args):
+        if args.exc_type is _Abort:
+            return
+        with self.cv:
+            self.cur.append("X:" + args.exc_type.__name__)
+            self.detail.append(("X:" + args.exc_type.__name__, {"t": self.clock.rel(), "what": repr(args.exc_value)}))
+
+    def start(self):
+        for p in self.patches:
+            p.start()
+        threading.excepthook = self._excepthook
+        self.gw.start()
+        self.wait_quiet()
+        return self.take()
+
+    def take(self):
+        with self.cv:
+            o, self.cur = self.cur, []
+        return o
+
+    def link(self):
+        if self.links and self.links[-1].is_open and self.proto.transport is not None \
+                and getattr(self.proto.transport, "serial", None) is self.links[-1] and self.proto.transport.alive:
+            return self.links[-1]
+        return None
+
+    def _user(self, fn):
+        try:
+            fn()
+        except Exception as exc:
+            self.emit("X:" + type(exc).__name__)
+
+    def do(self, ev):
+        ln = self.link()
+        tcp = self.flavour == "stcp"
+        dial = self.find("dial")
+        if ev == "ok":
+            if dial and self.tr.protocol is not None:
+                with self.cv:
+                    dial[0]["rec"]["ok"] = True
+                    self.release(lambda b: b is dial[0])
+        elif ev == "fail":
+            if dial:
+                with self.cv:
+                    self.release(lambda b: b is dial[0])
+        elif ev in ("rerr", "preset"):
+            if ln:
+                if tcp:
+                    if ev == "rerr":
+                        ln.err_select = True
+                    else:
+                        exc = ConnectionResetError("simulated")
+                        self.injected[id(exc)] = exc
+                        ln.err_recv = exc
+                    self.kick("reader")
+                else:
+                    exc = self.serial.SerialException("simulated read failure")
+                    self.injected[id(exc)] = exc
+                    with self.cv:
+                        ln.script.append(exc)
+                        self.release(lambda b: b.get("link") is ln)
+        elif ev == "pclose":
+            if ln:
+                if tcp:
+                    ln.eof = True
+                    self.kick("reader")
+                else:
+                    with self.cv:
+                        ln.script.append(b"")
+                        self.release(lambda b: b.get("link") is ln)
+        elif ev == "werr":
+            if ln:
+                ln.fail_write = True
+            self._user(lambda: self.tr.send(LINE))
+            if ln:
+                ln.fail_write = False
+        elif ev == "send":
+            self._user(lambda: self.tr.send(LINE))
+        elif ev == "udisc":
+            self._user(self.tr.disconnect)
+        elif ev == "stop":
+            self._user(self.gw.stop)
+            self.wait_quiet()
+            self.kick("poll")               # the poll thread sees _stop_event and ends
+        elif ev == "ans":
+            if ln:
+                if tcp:
+                    if not ln.eof:
+                        ln.inbuf.append(ANSWER)
+                        self.kick("reader")
+                else:
+                    with self.cv:
+                        ln.script.append(ANSWER)
+                        self.release(lambda b: b.get("link") is ln)
+        elif is_tick(ev):
+            dt = int(ev[1:])
+            if dt > 0 and not dial:
+                target = self.clock.t + dt
+                sl = self.find("sleep")
+                d = min((b["until"] for b in sl), default=None)
+                if d is not None and d <= target:
+                    with self.cv:
+                        self.clock.t = max(d, self.clock.t)
+                        self.release(lambda b: b["kind"] == "sleep" and b["until"] <= self.clock.t)
+                else:
+                    self.clock.t = target
+                    if tcp and ln:
+                        self.kick("reader")
+        else:
+            raise HarnessError("unknown event " + ev)
+        self.wait_quiet()
+        self.pump()
+        return self.observe()
+
+    def ct(self):
+        if self.find("dial"):
+            return "D"
+        sl = self.find("sleep")
+        if sl:
+            return "S%d" % (min(b["until"] for b in sl) - BASE)
+        return "I"
+
+    def observe(self):
+        return (self.clock.rel(), int(self.tr.protocol is not None), int(self.proto.transport is not None),
+                self.ct(), self.take())
+
+    def close(self):
+        try:
+            with self.cv:
+                self.abort = True
+                self.blocked.clear()
+                self.cv.notify_all()
+            end = _time.monotonic() + self.WAIT
+            for t in self.managed():
+                self._real_join(t, max(0.0, end - _time.monotonic()))
+            left = [t.name for t in self.managed() if t.is_alive()]
+        finally:
+            for p in self.patches:
+                try:
+                    p.stop()
+                except RuntimeError:
+                    pass
+            threading.excepthook = self._real_hook
+        if left:
+            raise HarnessError("threads leaked: %s" % left)
+
+
+def run_sync(flavour, rt_ticks, events, fail_kind=0):
+    rig = SyncRig(flavour, rt_ticks, fail_kind)
+    try:
+        first = rig.start()
+        obs = []
+        for ev in events:
+            rig.detail.append(("ev", {"ev": ev}))
+            obs.append(rig.do(ev))
+        return first, obs, rig.detail
+    finally:
+        rig.close()
+
+
+def run_case(flavour, rt_ticks, events, fail_kind=0):
+    if flavour in ("aser", "atcp"):
+        return run_async(flavour, rt_ticks, events, fail_kind)
+    return run_sync(flavour, rt_ticks, events, fail_kind)
